@@ -68,7 +68,7 @@ def runCase (c : Case) : List String :=
   | "convert" => Conv.runConvertCase c.id c.field c.events
   | "share" => ShareS.runShareCase c.id c.field c.events
   | "multi" => MultiS.runMultiCase c.id ((c.field "pipe").headD (.atom "")) c.events
-  | "locks" => LocksS.runLocksCase c.id (c.field "subs") c.events
+  | "locks" => LocksS.runLocksCase c.id (c.field "root") (c.field "subs") c.events
   | "behaviorrace" => LocksS.runBehaviorRace c.id c.events
   | "composite" => CompS.runCompositeCase c.id c.field c.events
   | "inject" => InjectS.runInjectCase c.id c.events
